@@ -22,14 +22,14 @@ type TV struct {
 }
 
 type Env struct {
-	vars    map[string]TV
-	cur     *State
-	old     *State
-	pkg     *types.Package
-	e       *Engine
-	fr      *Frame // optional: named locals of the function
-	atLoop  bool
-	bound   map[string]bool
+	vars   map[string]TV
+	cur    *State
+	old    *State
+	pkg    *types.Package
+	e      *Engine
+	fr     *Frame // optional: named locals of the function
+	atLoop bool
+	bound  map[string]bool
 }
 
 func (env *Env) with(name string, tv TV) *Env {
@@ -442,6 +442,9 @@ func (e *Engine) evalBinary(env *Env, v *ast.BinaryExpr) TV {
 		}
 		return TV{V: &Sc{not(isnil)}, T: boolT}
 	}
+	if (x.T != nil && isMathInt(x.T)) || (y.T != nil && isMathInt(y.T)) {
+		return e.mathBinary(v.Op, x, y)
+	}
 	// unify types
 	if x.Konst != nil {
 		x = e.materialize(x, y.T)
@@ -520,11 +523,9 @@ func (e *Engine) resolveType(env *Env, x ast.Expr) types.Type {
 		}
 	case *ast.SelectorExpr:
 		if id, ok := v.X.(*ast.Ident); ok {
-			if p := e.findImported(env, id.Name); p != nil {
-				if obj := p.Scope().Lookup(v.Sel.Name); obj != nil {
-					if tn, ok := obj.(*types.TypeName); ok {
-						return tn.Type()
-					}
+			if obj, _ := e.lookupQualified(env, id.Name, v.Sel.Name); obj != nil {
+				if tn, ok := obj.(*types.TypeName); ok {
+					return tn.Type()
 				}
 			}
 		}
@@ -548,6 +549,42 @@ func (e *Engine) resolveType(env *Env, x ast.Expr) types.Type {
 	return nil
 }
 
+// lookupQualified finds pkgName.member among the packages of that name
+// (several imported packages may share a name, e.g. pkg/common and apis/common).
+func (e *Engine) lookupQualified(env *Env, pkgName, member string) (types.Object, bool) {
+	seenPkg := false
+	try := func(p *types.Package) types.Object {
+		if p.Name() != pkgName {
+			return nil
+		}
+		seenPkg = true
+		return p.Scope().Lookup(member)
+	}
+	if env.pkg != nil {
+		for _, imp := range env.pkg.Imports() {
+			if o := try(imp); o != nil {
+				return o, true
+			}
+		}
+		if o := try(env.pkg); o != nil {
+			return o, true
+		}
+	}
+	for _, p := range e.prog.AllPackages() {
+		if strings.HasPrefix(p.Pkg.Path(), modPath) {
+			if o := try(p.Pkg); o != nil {
+				return o, true
+			}
+		}
+	}
+	for _, p := range e.prog.AllPackages() {
+		if o := try(p.Pkg); o != nil {
+			return o, true
+		}
+	}
+	return nil, seenPkg
+}
+
 func (e *Engine) findImported(env *Env, name string) *types.Package {
 	if env.pkg != nil {
 		for _, imp := range env.pkg.Imports() {
@@ -559,13 +596,19 @@ func (e *Engine) findImported(env *Env, name string) *types.Package {
 			return env.pkg
 		}
 	}
-	// any loaded package with that name
+	// any loaded package with that name (repository packages first)
+	var found *types.Package
 	for _, p := range e.prog.AllPackages() {
 		if p.Pkg.Name() == name {
-			return p.Pkg
+			if strings.HasPrefix(p.Pkg.Path(), modPath) {
+				return p.Pkg
+			}
+			if found == nil {
+				found = p.Pkg
+			}
 		}
 	}
-	return nil
+	return found
 }
 
 func (e *Engine) evalSelector(env *Env, v *ast.SelectorExpr) TV {
@@ -576,10 +619,11 @@ func (e *Engine) evalSelector(env *Env, v *ast.SelectorExpr) TV {
 				_, isLocal = e.localByName(env, id.Name)
 			}
 			if !isLocal {
-				if p := e.findImported(env, id.Name); p != nil {
-					if obj := p.Scope().Lookup(v.Sel.Name); obj != nil {
-						return e.objValue(env, obj)
-					}
+				obj, isPkg := e.lookupQualified(env, id.Name, v.Sel.Name)
+				if obj != nil {
+					return e.objValue(env, obj)
+				}
+				if isPkg {
 					sfail("unknown %s.%s", id.Name, v.Sel.Name)
 				}
 			}
@@ -813,7 +857,11 @@ func (e *Engine) evalCall(env *Env, c *ast.CallExpr) TV {
 		lo := e.toIdxTV(e.eval(env, c.Args[1]))
 		hi := e.toIdxTV(e.eval(env, c.Args[2]))
 		q, srt := e.boundVar(kid.Name, intT)
-		body := e.evalBool(env.with(kid.Name, TV{V: &Sc{q}, T: intT}), c.Args[3])
+		e.vc.noDef++
+		body := func() string {
+			defer func() { e.vc.noDef-- }()
+			return e.evalBool(env.with(kid.Name, TV{V: &Sc{q}, T: intT}), c.Args[3])
+		}()
 		rng := and(e.idxLe(lo, q), e.idxLt(q, hi))
 		if fname == "forall" {
 			return TV{V: &Sc{fmt.Sprintf("(forall ((%s %s)) %s)", q, srt, implies(rng, body))}, T: boolT}
@@ -830,7 +878,11 @@ func (e *Engine) evalCall(env *Env, c *ast.CallExpr) TV {
 			sfail("unknown type %s", exprString(c.Args[1]))
 		}
 		q, srt := e.boundVar(kid.Name, t)
-		body := e.evalBool(env.with(kid.Name, TV{V: &Sc{q}, T: t}), c.Args[2])
+		e.vc.noDef++
+		body := func() string {
+			defer func() { e.vc.noDef-- }()
+			return e.evalBool(env.with(kid.Name, TV{V: &Sc{q}, T: t}), c.Args[2])
+		}()
 		rng := "true"
 		if w, s, ok := intInfo(t); ok {
 			rng = e.ar.InRange(q, w, s)
@@ -892,6 +944,18 @@ func (e *Engine) evalCall(env *Env, c *ast.CallExpr) TV {
 			op = token.GEQ
 		}
 		return TV{V: &Sc{ite(e.ar.Cmp(op, as, bs, s), as, bs)}, T: a.T}
+	case "mathint":
+		return e.toMath(e.eval(env, c.Args[0]))
+	case "fits":
+		// fits(m, x): the mathematical integer m is representable in the type of x
+		m := e.toMath(e.eval(env, c.Args[0]))
+		x := e.eval(env, c.Args[1])
+		w, s, ok := intInfo(x.T)
+		if !ok {
+			sfail("fits: second argument is not an integer")
+		}
+		a := &Arith{mode: ModeInt}
+		return TV{V: &Sc{a.InRange(m.V.(*Sc).T, w, s)}, T: boolT}
 	case "popcount64", "popcount32":
 		x := e.eval(env, c.Args[0])
 		w := 64
@@ -916,6 +980,54 @@ func (e *Engine) evalCall(env *Env, c *ast.CallExpr) TV {
 		return e.applySpec(env, sf, c.Args)
 	}
 	sfail("unknown function %s in contract", fname)
+	return TV{}
+}
+
+var mathIntT = types.NewNamed(types.NewTypeName(token.NoPos, nil, "mathint", nil), types.Typ[types.Int64], nil)
+
+func isMathInt(t types.Type) bool { return t == mathIntT }
+
+func (e *Engine) toMath(tv TV) TV {
+	if tv.Konst != nil {
+		return TV{V: &Sc{intLit(tv.Konst)}, T: mathIntT}
+	}
+	if isMathInt(tv.T) {
+		return tv
+	}
+	w, s, ok := intInfo(tv.T)
+	if !ok {
+		sfail("mathint of non-integer %s", tv.T)
+	}
+	return TV{V: &Sc{e.ar.ToMathInt(tv.V.(*Sc).T, w, s)}, T: mathIntT}
+}
+
+func (e *Engine) mathBinary(op token.Token, x, y TV) TV {
+	xs, ys := e.toMath(x).V.(*Sc).T, e.toMath(y).V.(*Sc).T
+	switch op {
+	case token.ADD:
+		return TV{V: &Sc{fmt.Sprintf("(+ %s %s)", xs, ys)}, T: mathIntT}
+	case token.SUB:
+		return TV{V: &Sc{fmt.Sprintf("(- %s %s)", xs, ys)}, T: mathIntT}
+	case token.MUL:
+		return TV{V: &Sc{fmt.Sprintf("(* %s %s)", xs, ys)}, T: mathIntT}
+	case token.QUO:
+		return TV{V: &Sc{fmt.Sprintf("(div %s %s)", xs, ys)}, T: mathIntT} // floor division (spec level)
+	case token.REM:
+		return TV{V: &Sc{fmt.Sprintf("(mod %s %s)", xs, ys)}, T: mathIntT}
+	case token.EQL:
+		return TV{V: &Sc{fmt.Sprintf("(= %s %s)", xs, ys)}, T: boolT}
+	case token.NEQ:
+		return TV{V: &Sc{fmt.Sprintf("(not (= %s %s))", xs, ys)}, T: boolT}
+	case token.LSS:
+		return TV{V: &Sc{fmt.Sprintf("(< %s %s)", xs, ys)}, T: boolT}
+	case token.LEQ:
+		return TV{V: &Sc{fmt.Sprintf("(<= %s %s)", xs, ys)}, T: boolT}
+	case token.GTR:
+		return TV{V: &Sc{fmt.Sprintf("(> %s %s)", xs, ys)}, T: boolT}
+	case token.GEQ:
+		return TV{V: &Sc{fmt.Sprintf("(>= %s %s)", xs, ys)}, T: boolT}
+	}
+	sfail("operator %s not available on mathint", op)
 	return TV{}
 }
 
@@ -1046,6 +1158,15 @@ func (e *Engine) declareSpec(env *Env, sf *SpecFunc) {
 func (e *Engine) applySpec(env *Env, sf *SpecFunc, args []ast.Expr) TV {
 	if len(args) != len(sf.PNames) {
 		sfail("spec %s: want %d args", sf.Name, len(sf.PNames))
+	}
+	if sf.Macro {
+		// macro: the body is evaluated with the parameters bound to the argument
+		// values (any shape: slices, pointers); nothing is declared to the solver
+		benv := &Env{vars: map[string]TV{}, pkg: env.pkg, e: e, cur: env.cur, old: env.old}
+		for i, a := range args {
+			benv.vars[sf.PNames[i]] = e.eval(env, a)
+		}
+		return e.eval(benv, sf.Body)
 	}
 	e.declareSpec(env, sf)
 	pts, rt := e.specSig(env, sf)
